@@ -7,6 +7,7 @@ class StubBarcodeParser:
     def __init__(self, accept=True, index=17, index_accept=True, index_alias='idx', verdicts=None):
         self.accept, self.index, self.index_accept, self.index_alias = accept, index, index_accept, index_alias
         self.verdicts = verdicts or {}   # alias -> bool, overrides `accept`
+        self.correct = None              # optional function raw barcode -> corrected barcode (same length)
         self.calls = []
 
     def getIndexCorrectedBarcodeAndHammingDistance(self, barcode, alias, try_lazy_load_pending=True):
@@ -16,7 +17,7 @@ class StubBarcodeParser:
                 return 1, barcode, 0
             return None, None, None
         if self.verdicts.get(alias, self.accept):
-            return self.index, barcode, 0
+            return self.index, (barcode if self.correct is None else self.correct(barcode)), 0
         return None, None, None
 
     def __getitem__(self, alias):
